@@ -497,6 +497,8 @@ func runProfile(g *Gen, profile string, nops int) {
 		g.runVotes(nops)
 	case "oracle":
 		g.runOracle(nops)
+	case "keys":
+		g.runKeys(nops)
 	case "abi":
 		g.runAbi(nops)
 	case "hash":
@@ -1008,4 +1010,200 @@ func (g *Gen) runHash(nops int) {
 			}
 		}
 	}
+}
+
+// ---------------------------------------------------------------- keys profile (C09, C16, C17)
+
+func (g *Gen) runKeys(nops int) {
+	r := g.rng
+	g.env = NewEnv(false)
+	g.do("reset")
+	g.chains = []string{"ethereum", "minter", "bsc", "hub"}
+	g.do("chains " + strings.Join(g.chains, ","))
+	ethTok := ethHex([]byte{0x10, 1, 2, 3, 4, 5, 6, 7, 8, 9, 10, 11, 12, 13, 14, 15, 16, 17, 18, 19})
+	g.do("token 1 hub ethereum " + ethTok + " 18 10000000000000000")
+	g.do("token 2 hub minter 0 18 10000000000000000")
+	g.tokens = []tokSpec{{1, "hub", "ethereum", ethTok, 18}, {2, "hub", "minter", "0", 18}}
+	g.denoms = []string{"hub"}
+	for _, p := range []string{"eth", "bnb", "hub"} {
+		g.do("price " + p + " 1000000000000000000")
+	}
+	if r.Intn(3) == 0 {
+		g.do(fmt.Sprintf("param window %d", 1+r.Intn(4)))
+	}
+	nv := 1 + r.Intn(7)
+	mode := r.Intn(4)
+	for i := 0; i < nv; i++ {
+		p := int64(1 + r.Intn(1000))
+		switch mode {
+		case 0:
+			p = 100 // ties
+		case 1:
+			if i == 0 {
+				p = 1000000 // dominant
+			}
+		case 2:
+			p = int64(1 + r.Intn(3))
+		}
+		g.vals = append(g.vals, valSpec{addr: hex20(byte(0xa0 + i)), power: p, bonded: r.Intn(8) > 0, orch: map[string]string{}, eth: map[string]string{}})
+	}
+	g.do(g.stakingLine())
+	g.do("init")
+	for i := 0; i < 3; i++ {
+		g.accounts = append(g.accounts, hex20(byte(0x31+i)))
+		g.do(fmt.Sprintf("fund %s hub 1000000000000000000000", hex20(byte(0x31+i))))
+	}
+	for i := 0; i < 3; i++ {
+		g.recips = append(g.recips, ethHex([]byte{byte(0x70 + i), 9, 9, 9, 9, 9, 9, 9, 9, 9, 9, 9, 9, 9, 9, 9, 9, 9, 9, byte(i)}))
+	}
+	g.height, g.time = 1, 1600000000
+	g.do(fmt.Sprintf("block %d %d", g.height, g.time))
+	g.do("begin")
+	kchains := []string{"ethereum", "minter", "bsc"}
+	dumps := func() {
+		for _, c := range kchains {
+			g.do("dump keys " + c)
+			g.do("dump sets " + c)
+			g.do("dump sigs " + c)
+			g.do("dump counters " + c)
+		}
+	}
+	sigc := 0
+	for i := 0; i < nops; i++ {
+		chain := kchains[r.Intn(len(kchains))]
+		switch x := r.Intn(100); {
+		case x < 22:
+			vi := r.Intn(len(g.vals))
+			if r.Intn(12) == 0 {
+				// unknown validator
+				v := valSpec{addr: hex20(byte(0xb0 + r.Intn(3))), orch: map[string]string{}, eth: map[string]string{}}
+				g.vals = append(g.vals, v)
+				g.delegate(len(g.vals)-1, chain, true)
+				g.vals = g.vals[:len(g.vals)-1]
+			} else {
+				g.delegate(vi, chain, r.Intn(5) > 0)
+			}
+		case x < 30:
+			vi := r.Intn(len(g.vals))
+			switch r.Intn(4) {
+			case 0:
+				g.vals[vi].power = int64(1 + r.Intn(1000))
+			case 1:
+				g.vals[vi].bonded = !g.vals[vi].bonded
+			case 2:
+				// drift around the 5 % boundary
+				g.vals[vi].power = g.vals[vi].power + g.vals[vi].power*int64(r.Intn(9))/100 + int64(r.Intn(2))
+			case 3:
+				g.vals[vi].power = int64(1 + r.Intn(3))
+			}
+			g.do(g.stakingLine())
+		case x < 55:
+			// confirmation of a signer set or a batch
+			v := g.vals[r.Intn(len(g.vals))]
+			signer := v.addr
+			if o, ok := v.orch[chain]; ok && r.Intn(2) == 0 {
+				signer = o
+			}
+			if r.Intn(12) == 0 {
+				signer = hex20(byte(0xe0 + r.Intn(2)))
+			}
+			ext := v.eth[chain]
+			if ext == "" || r.Intn(10) == 0 {
+				ext = ethAddrs[r.Intn(len(ethAddrs))]
+				if r.Intn(3) == 0 {
+					ext = "0x0000000000000000000000000000000000000000"
+				}
+			}
+			sigc++
+			sig := fmt.Sprintf("%02x%02x", sigc%256, r.Intn(256))
+			sets := g.env.Sets(g.env.ctx, chain)
+			bs := g.env.Batches(g.env.ctx, chain)
+			if r.Intn(2) == 0 || len(bs) == 0 {
+				n := uint64(1 + r.Intn(4))
+				if len(sets) > 0 && r.Intn(6) > 0 {
+					n = sets[r.Intn(len(sets))].Nonce
+				}
+				g.do(fmt.Sprintf("confirm %s %s set %d %s %s", chain, signer, n, ext, sig))
+			} else {
+				b := bs[r.Intn(len(bs))]
+				n := b.BatchNonce
+				if r.Intn(8) == 0 {
+					n += 7
+				}
+				g.do(fmt.Sprintf("confirm %s %s batch %s %d %s %s", chain, signer, b.ExternalTokenId, n, ext, sig))
+			}
+		case x < 67:
+			v := g.vals[r.Intn(len(g.vals))]
+			signer := v.addr
+			if o, ok := v.orch[chain]; ok && r.Intn(2) == 0 {
+				signer = o
+			}
+			switch r.Intn(4) {
+			case 0:
+				g.do(fmt.Sprintf("q_unsigned_sets %s %s", chain, signer))
+			case 1:
+				g.do(fmt.Sprintf("q_unsigned_batches %s %s", chain, signer))
+			case 2:
+				sets := g.env.Sets(g.env.ctx, chain)
+				n := uint64(1)
+				if len(sets) > 0 {
+					n = sets[r.Intn(len(sets))].Nonce
+				}
+				g.do(fmt.Sprintf("q_confs %s set %d", chain, n))
+			case 3:
+				bs := g.env.Batches(g.env.ctx, chain)
+				if len(bs) > 0 {
+					b := bs[r.Intn(len(bs))]
+					g.do(fmt.Sprintf("q_confs %s batch %s %d", chain, b.ExternalTokenId, b.BatchNonce))
+				}
+			}
+		case x < 75:
+			c := g.pick([]string{"ethereum", "minter"})
+			g.do(fmt.Sprintf("send %s %s %s hub %d %d %s", g.pick(g.accounts), c, g.pick(g.recips), 1000000+r.Intn(1000000), 1000+r.Intn(100), g.nextTag()))
+			if r.Intn(2) == 0 {
+				g.do(fmt.Sprintf("reqbatch %s hub", c))
+			}
+		case x < 80:
+			// a vote through an orchestrator: attribution
+			v := g.vals[r.Intn(len(g.vals))]
+			signer := v.addr
+			if o, ok := v.orch[chain]; ok {
+				signer = o
+			}
+			n := g.env.k.GetLastObservedEventNonce(g.env.ctx, types.ChainID(chain)) + 1
+			coin := ethTok
+			if chain == "minter" {
+				coin = "0"
+			}
+			if chain != "bsc" {
+				g.do(fmt.Sprintf("vote %s %s sth %d %s 1000 %s %s %d 0xk%d", chain, signer, n, coin, g.pick(g.recips), g.pick(g.accounts), 100+n, n))
+				g.do("dump votes " + chain)
+			}
+		case x < 84:
+			// the external chain adopts a signer set: observed through a quorum of votes
+			sets := g.env.Sets(g.env.ctx, chain)
+			if len(sets) > 0 && chain != "bsc" {
+				st := sets[r.Intn(len(sets))]
+				n := g.env.k.GetLastObservedEventNonce(g.env.ctx, types.ChainID(chain)) + 1
+				m := "-"
+				if len(st.Signers) > 0 {
+					m = showSigners(st.Signers)
+				}
+				for _, v := range g.vals {
+					if v.bonded {
+						g.do(fmt.Sprintf("vote %s %s sse %d %d %d 0xs%d %s", chain, v.addr, n, st.Nonce, 100+n, n, m))
+					}
+				}
+			}
+		default:
+			g.do("end")
+			g.height += int64(1 + r.Intn(3))
+			g.time += 5
+			g.do(fmt.Sprintf("block %d %d", g.height, g.time))
+			g.do("begin")
+			dumps()
+		}
+	}
+	g.do("end")
+	dumps()
 }
